@@ -331,7 +331,7 @@ impl Prop for C09 {
         f.push(Family::new(
             "negative-counts",
             Mode::Full,
-            "a negative day or week count below 30 days in all: the sign glued to the count ('1/3/2021 -3 days', '1/3/2020-1 day', 'June 15, 2021 -1 week'), added explicitly ('1/3/2021 + -3 days'), and held in a variable ('n = -3 / 15/6/2021 + n days', 'n = -2 / 15/6/2021 - n weeks'), for bases around month ends and the leap day, in every language: the date exactly that many days away",
+            "a negative day or week count below 30 days in all: the sign glued to the count ('1/3/2021 -3 days', '1/3/2020-1 day', 'June 15, 2021 -1 week'), added explicitly ('1/3/2021 + -3 days'), and held in a variable ('n = -3 / 15/6/2021 + n days', 'n = -2 / 15/6/2021 - n weeks'), and a date without a year followed by a count with a glued sign ('10 June +3 weeks', '10 June -3 days'), for bases around month ends and the leap day, in every language: the date exactly that many days away",
             move |ch| {
                 let bases: [D; 6] = [(2021, 3, 1), (2020, 3, 1), (2021, 6, 15), (2021, 1, 1), (2020, 12, 31), (2019, 3, 31)];
                 let base = *ch.pick(&bases);
@@ -340,7 +340,21 @@ impl Prop for C09 {
                 let (n, unit, len) = *ch.pick(&[(1i64, Unit::Day, 1i64), (3, Unit::Day, 1), (10, Unit::Day, 1), (29, Unit::Day, 1), (1, Unit::Week, 7), (2, Unit::Week, 7), (4, Unit::Week, 7)]);
                 let (sing, plur) = unit.words(&lang);
                 let word = if n == 1 { sing } else { plur };
-                let form = ch.choose(5);
+                let form = ch.choose(8);
+                // a date written 'd Month' (current year) with the sign glued to the count
+                let named = format!("{} {}", base.2, month_names(&lang, base.1)[0]);
+                let this_year = (cal::civil_from_days(crate::seam::DEFAULT_NOW.div_euclid(86400)).0, base.1, base.2);
+                if form >= 5 && !cal::valid(this_year.0, this_year.1, this_year.2) {
+                    return None;
+                }
+                if form >= 5 {
+                    let (text, delta) = match form {
+                        5 => (format!("{} +{} {}", named, n, word), n * len),
+                        6 => (format!("{} -{} {}", named, n, word), -n * len),
+                        _ => (format!("v = {} +{} {}\nv", named, n, word), n * len),
+                    };
+                    return Some(LineCase::new(text, Expect::Value(date_val(cal::add_days(this_year, delta)), 0.0), "negative-count").with_lang(&lang));
+                }
                 let (text, delta) = match form {
                     0 => (format!("{} -{} {}", dmy(base), n, word), -n * len),
                     1 => (format!("{}-{} {}", dmy(base), n, word), -n * len),
